@@ -51,7 +51,8 @@ region in resolution order) and "cross" (a lite alphabet -- 3 colliding grants, 
 flow -- on all four regions).  Lookups are oracle sweeps after every step rather than events (except consuming ones), so
 they cost no depth.  The Seed clauses are additionally enumerated exhaustively over viewer lists x grants (DESIGN's
 fallback), through the same real event manager.  Two scenario families (see _family_cases) enumerate the cross-session
-wrapper collisions and the one-shot / trailing-slash cases exhaustively instead of reaching them by deeper BFS.
+wrapper collisions and the one-shot / trailing-slash cases exhaustively instead of reaching them by deeper BFS; a third
+family (_repeated_cases) grants ONE name up to 8 times per kind (BFS depth cannot hold 5+ grants of one name plus lookups).
 Additional clauses: wrapper-url-unique (one wrapper URL handed out for two regions), lookup-raises / call-raises (an
 exception escaping the code under test).
 """
@@ -722,6 +723,42 @@ def _family_cases():
                         yield ("one-shots", [("temp", reg, u1), ("temp", reg, u2), ("lookup", a1, u1 + s1), ("lookup", a2, u2 + s2)])
 
 
+REPEAT_K = 8
+
+
+def _g(n: int) -> str:
+    return f"https://sim/cap/g{n}"       # g1..g8: pairwise distinct, none a prefix of another
+
+
+def _repeated_cases():
+    """repeated-grants: ONE name is granted REPEAT_K times with distinct URLs in one region, per kind; the step oracle
+    (unchanged) resolves every URL granted so far at manager / session / region level and looks the name up after every
+    grant.  Kinds: NORMAL via update_caps (plain and asset name), NORMAL via Seed responses (plain; asset => one WRAPPER
+    per response as well), WRAPPER via register_wrapper_cap after each new asset URL, PROXY_ONLY first then NORMAL grants
+    of the same name, and k = 1..REPEAT_K one-shots in flight that are then consumed oldest-first / newest-first through
+    each API (bare and extended URL alternating)."""
+    ns = range(1, REPEAT_K + 1)
+    for reg in _FAMILY_REGS:
+        for name in (EQG, GM2):
+            yield ("repeated-grants", [("grant", reg, ((name, _g(n)),)) for n in ns])
+            hist = []
+            for n in ns:
+                hist += [("seedreq", reg, 0, (EQG, GM2)), ("seedresp", ((name, _g(n)),))]
+            yield ("repeated-grants", hist)
+        hist = []
+        for n in ns:
+            hist += [("grant", reg, ((GM2, _g(n)),)), ("wrap", reg)]
+        yield ("repeated-grants", hist)
+        yield ("repeated-grants", [("proxy", reg, "ProxyFoo")] + [("grant", reg, (("ProxyFoo", _g(n)),)) for n in ns]
+               + [("proxy", reg, "ProxyFoo")])
+        for k in ns:
+            temps = [("temp", reg, _g(n)) for n in range(1, k + 1)]
+            for order in ("oldest-first", "newest-first"):
+                seq = list(range(1, k + 1)) if order == "oldest-first" else list(range(k, 0, -1))
+                for api in ("mgr", f"s{reg // 2}", f"r{reg}"):
+                    yield ("repeated-grants", temps + [("lookup", api, _g(n) + SUFFIXES[i % 2]) for i, n in enumerate(seq)])
+
+
 def _family_worker(case):
     label, history = case
     part = Part()
@@ -740,6 +777,10 @@ def _family_worker(case):
     part.outcome(("family", jsonable(w.last_out), w.obs))
     if label == "wrappers" and history[0][1] == 0 and history[2][1] == 2 and history[0][0] != history[2][0]:
         part.sample({"search": "family:" + label, "history": history, "last_output": w.last_out})
+    if label == "repeated-grants":
+        part.count("repeated_grant_steps", len(history))
+        if history[0][0] == "proxy":
+            part.sample({"search": "family:" + label, "history": history, "last_output": w.last_out}, limit=1)
     return part.dump()
 
 
@@ -759,7 +800,9 @@ def run(run: Run):
                 "regions and every name is looked up in every region; plus exhaustive viewer-list x simulator-grant enumeration of "
                 "the Seed rewrite behind 9 prefixes; plus two scenario families enumerated exhaustively (wrappers for every ordered "
                 "region pair x asset URL pair x {register_wrapper_cap, Seed response}; one or two one-shots per region x URL pair x "
-                "lookup API x suffix). non-trivial = distinct (feature set, model) with a URL extending >= 2 live grants, a "
+                "lookup API x suffix; repeated grants: one name granted 8 times with distinct URLs per kind -- NORMAL via update_caps / "
+                "Seed responses, WRAPPER, PROXY_ONLY then NORMAL, and 1..8 one-shots in flight consumed oldest-/newest-first per "
+                "API -- with the full sweep after every grant). non-trivial = distinct (feature set, model) with a URL extending >= 2 live grants, a "
                 "re-granted name, a consumed temporary, a second register_proxy_cap, a wrapper, a re-seed, a stripped seed request "
                 "or a wrapped seed response; every family case")
     run.assumptions += [
@@ -793,11 +836,13 @@ def run(run: Run):
     run.coverage_extra["seed_enumeration"] = {"prefixes": len(SEED_PREFIXES), "viewer_lists": len(cases) // len(SEED_PREFIXES),
                                               "cases": run.counters.get("seed_cases", 0), "grant_urls": list(_SEED_URLS)}
     # scenario families
-    fam = list(_family_cases())
+    fam = list(_family_cases()) + list(_repeated_cases())
     for d in pmap(_family_worker, fam, run.jobs):
         run.merge(d)
     run.coverage_extra["families"] = {"wrappers": sum(1 for c in fam if c[0] == "wrappers"),
                                       "one-shots": sum(1 for c in fam if c[0] == "one-shots"),
+                                      "repeated-grants": sum(1 for c in fam if c[0] == "repeated-grants"),
+                                      "repeated_grants_k": REPEAT_K,
                                       "urls": list(_FAMILY_URLS), "one_shot_regions": list(_FAMILY_REGS)}
     # shrink witnesses
     for v in run.violations:
